@@ -171,33 +171,75 @@ def run(ctx):
               'grader-records-timeout', mod, g_caps[0] if g_caps else ewt,
               "the grader arm does not record the TimeoutError itself", "sandbox.exception is not a timeout error")
 
-    ctx.rule('R4', "bounded return: timeout() joins the student thread once with the finite duration, performs no "
-                   "other join/wait on it, terminates it and raises TimeoutError whenever it is still alive; the "
-                   "thread is a daemon")
+    ctx.rule('R4', "bounded return: timeout(), executed abstractly against model threads (finishes in time / dies when "
+                   "terminated / never dies), waits the allowed duration with a timed join, then terminates the "
+                   "thread and raises TimeoutError after a bounded number of operations on it; terminate() and its "
+                   "helpers contain no wait for the thread's death; the thread is a daemon")
     to = tmod.func('timeout')
     ctx.analysed_function(tmod, to)
-    joins = [c for c in calls(to) if isinstance(c.func, ast.Attribute) and c.func.attr == 'join']
-    ok = len(joins) >= 1 and all(len(j.args) == 1 and not (isinstance(j.args[0], ast.Constant)
-                                                         and j.args[0].value is None) for j in joins) and \
-        any(norm(j.args[0]) == to.args.args[0].arg for j in joins)
-    ctx.check(ok, 'R4', 'timeout:single-timed-join', tmod, joins[0] if joins else to,
-              "timeout() joins the student thread without a finite timeout (an un-timed join()/wait blocks forever on a "
-              "thread that swallows the injected exception), or never waits for the allowed duration",
-              "student code `while True: try: ... except BaseException: pass` makes run(threaded=True) hang")
-    waits = [c for c in calls(to) if isinstance(c.func, ast.Attribute) and c.func.attr in ('wait', 'acquire', 'sleep')]
-    ctx.check(not waits, 'R4', 'timeout:no-other-blocking', tmod, waits[0] if waits else to,
-              "timeout() blocks on something besides the timed join", "the call does not return within the limit")
-    alive = [n for n in body_walk(to) if isinstance(n, ast.If) and 'is_alive()' in norm(n.test)]
-    ok = len(alive) == 1 and any(isinstance(x, ast.Raise) for x in alive[0].body) and \
-        any(isinstance(c.func, ast.Attribute) and c.func.attr == 'terminate' for x in alive[0].body for c in calls(x))
-    if ok:
-        r = [x for x in alive[0].body if isinstance(x, ast.Raise)][0]
-        src = {norm(n.targets[0]): n.value for n in ast.walk(to) if isinstance(n, ast.Assign)}
-        v = src.get(norm(r.exc), r.exc)
-        ok = isinstance(v, ast.Call) and call_name(v) == 'TimeoutError'
-    ctx.check(ok, 'R4', 'timeout:raises-when-alive', tmod, alive[0] if alive else to,
-              "a thread that is still alive after the limit is not terminated and reported with TimeoutError",
-              "an infinite loop returns normally / with the wrong exception")
+    # timeout() executed abstractly against three model threads: one that finishes in time, one that dies at the
+    # first terminate(), and one that never dies (swallows the injected exception / is blocked in C)
+    from .. import symexec
+    from ..fdeval import Obj, Raised
+
+    class _Budget(Exception):
+        pass
+    for behaviour in ('finishes-in-time', 'dies-when-terminated', 'never-dies'):
+        rec = symexec.Recorder()
+        state = {'alive': behaviour != 'finishes-in-time', 'calls': 0}
+        thread = Obj('student-thread', exc_info=(None, None, None), daemon=True)
+
+        def _count(name, ret=None, state=state, rec=rec):
+            def f(*a, **k):
+                state['calls'] += 1
+                rec.events.append((name, a, k))
+                if state['calls'] > 60:
+                    raise _Budget()
+                return ret() if callable(ret) else ret
+            return f
+
+        def _terminate(*a, **k):
+            state['calls'] += 1
+            rec.events.append(('terminate', a, k))
+            if state['calls'] > 60:
+                raise _Budget()
+            if behaviour == 'dies-when-terminated':
+                state['alive'] = False
+        symexec.method(thread, 'start', _count('start'))
+        symexec.method(thread, 'join', _count('join'))
+        symexec.method(thread, 'is_alive', _count('is_alive', ret=lambda: state['alive']))
+        symexec.method(thread, 'isAlive', _count('is_alive', ret=lambda: state['alive']))
+        symexec.method(thread, 'terminate', _terminate)
+        symexec.method(thread, 'raise_exception', _terminate)
+        fd = symexec.new_fd(sym, tmod, calls={
+            'InterruptableThread': rec.stub('InterruptableThread', ret=thread),
+            'TimeoutError': lambda *a, **k: Obj('TimeoutError', exc_kind='TimeoutError', args=a),
+            'time.sleep': _count('sleep'), 'sleep': _count('sleep')},
+            extra={'threading': 'threading-module', 'ctypes': 'ctypes-module'})
+        hung = False
+        try:
+            _, raised = symexec.run(fd, to, [0.5, symexec.marker('Sandbox._execute')], bound_self=None,
+                                    what='timeout()')
+        except _Budget:
+            hung, raised = True, None
+        joins_ = rec.named('join')
+        timed = all(len(j[1]) + len(j[2]) >= 1 and all(isinstance(x, (int, float)) and not isinstance(x, bool)
+                                                     for x in list(j[1]) + list(j[2].values())) for j in joins_)
+        waited = any(0.5 in list(j[1]) + list(j[2].values()) for j in joins_)
+        if behaviour == 'finishes-in-time':
+            ok = not hung and raised is None and timed and waited and not rec.named('terminate')
+            want = "return normally without terminating it"
+        else:
+            ok = not hung and raised is not None and raised.kind == 'TimeoutError' and timed and waited and \
+                len(rec.named('terminate')) >= 1
+            want = "wait the allowed duration once (timed join), terminate the thread and raise TimeoutError"
+        outcome = 'keeps waiting (more than 60 calls on the thread: %s ...)' % [e[0] for e in rec.events[:8]] if hung \
+            else ('raises %s' % raised.kind if raised is not None else 'returns') + \
+            ' after %s' % [e[0] for e in rec.events]
+        ctx.check(ok, 'R4', 'timeout()[%s]' % behaviour, tmod, to,
+                  "with a student thread that %s, timeout() %s; it must %s" % (behaviour.replace('-', ' '), outcome, want),
+                  "student code `while True:\n    try: pass\n    except BaseException: pass` (or a thread blocked in "
+                  "Lock.acquire()): run(threaded=True) never returns, no TimeoutError is recorded")
     # nothing the grader runs after the limit may wait for the student thread to die: terminate()/raise_exception()
     # (and any helper of the thread class they call) contain no wait of unbounded total length
     tcls = tmod.cls('InterruptableThread')
